@@ -372,7 +372,7 @@ def get_string_pattern_with_prefix(prefix, prefix_group_name=None):
 
 
 def get_string_pattern():
-    prefix = r"(?<![fF])(\b[uUbB]?[rR]?)?"
+    prefix = r"(?<![fF])(\b([uUbB]?[rR]?|[rR][bB]))?"
     return get_string_pattern_with_prefix(prefix)
 
 
